@@ -491,13 +491,34 @@ def batch_store_grows(ctx, facts, rule):
 
 
 def segment_packing(ctx, facts, rule):
-    """Slot arithmetic of the proof-input store: the (block, bit range) computed for record k of width w, extracted
-    from insert_segment_small / insert_segment_large and evaluated for all widths and many record indices, must give
-    every record its own bits inside one 256-bit block - otherwise recorded multiplications overwrite each other and
-    drop out of the proof (or the insert panics)."""
-    from rules.C13 import ieval, NoEval
-    ctx.rule(f"{rule}: for every width w in 1..=255 and record index k in 0..1100 the extracted block index and bit range of insert_segment_small satisfy end - start = w, end <= 256 and the global bit intervals of distinct records are disjoint; for widths 256..1024 (multiples of 256) insert_segment_large gives record k the blocks [k*w/256, (k+1)*w/256)")
+    """Slot arithmetic of the proof-input store: the (block, bit range) computed for a record of width w, extracted
+    from insert_segment_small / insert_segment_large and evaluated for all widths, several batch shapes
+    (first_record, max_multiplications incl. the unlimited usize::MAX) and many record ids, must give every record of
+    the batch its own bits inside one 256-bit block - otherwise recorded multiplications overwrite each other and drop
+    out of the proof (or the insert panics)."""
+    from rules.C13 import ieval, NoEval, compile_expr
+    ctx.rule(f"{rule}: for every width w in 1..=255, batch shape (first_record f, max_multiplications M in {{1,2,..,1024, usize::MAX}}) and record id r in f..f+min(M,1100) the extracted block index and bit range of insert_segment_small satisfy end - start = w, end <= 256 and the global bit intervals of distinct records are disjoint; for widths 256..1024 insert_segment_large gives the record with offset k the blocks [k*w/256, (k+1)*w/256)")
     P = "protocol::context::dzkp_validator::MultiplicationInputsBatch::"
+    UMAX = (1 << 64) - 1
+
+    def leaves(exprs):
+        w = None
+        for e in exprs:
+            for nd in walk_all(e):
+                nd_ = flow.strip_casts(nd)
+                if nd_[0] == "call" and nd_[1].endswith("Segment::<'a>::len"):
+                    w = nd_
+        return w
+
+    def env_for(wkey, w, r, f, M):
+        env = {("call", "std::convert::From::from", (("arg", 2),)): r,
+               ("call", "std::convert::From::from", (("call", "std::option::Option::<T>::unwrap", (("arg", 1, "first_record"),)),)): f,
+               ("arg", 1, "max_multiplications"): M}
+        if wkey is not None:
+            env[wkey] = w
+        return env
+
+    shapes = [(0, UMAX), (0, 1), (0, 2), (4, 4), (0, 64), (128, 128), (0, 1024), (2048, 1024), (0, 4096)]
     b = facts.bodies.get(P + "insert_segment_small")
     if b is None:
         ctx.missing(rule, "insert_segment_small")
@@ -515,33 +536,33 @@ def segment_packing(ctx, facts, rule):
         if blk_e is None or rng_e is None:
             ctx.missing(rule, "block index / bit range in insert_segment_small")
         else:
-            wkey = kkey = None
-            for nd in walk_all(blk_e[1]) + walk_all(rng_e[1]) + walk_all(rng_e[2]):
-                nd_ = flow.strip_casts(nd)
-                if nd_[0] == "call" and nd_[1].endswith("Segment::<'a>::len"):
-                    wkey = nd_
-                if nd_[0] == "bin" and nd_[1] == "Sub" and "From::from" in str(nd_[2]) and "first_record" in str(nd_[3]):
-                    kkey = nd_
+            wkey = leaves([blk_e[1], rng_e[1], rng_e[2]])
             bad = None
             try:
-                if wkey is None or kkey is None:
-                    raise NoEval("segment length / record offset leaves not found")
-                for w in range(1, 256):
-                    iv = []
-                    for k in range(0, 1100):
-                        env = {wkey: w, kkey: k}
-                        blk, st, en = ieval(blk_e[1], env), ieval(rng_e[1], env), ieval(rng_e[2], env)
-                        if en - st != w or en > 256 or st < 0:
-                            bad = bad or (w, k, f"bit range {st}..{en} in block {blk}")
-                        iv.append((blk * 256 + st, blk * 256 + en, k))
-                    iv.sort()
-                    for (a0, a1, ka), (b0, b1, kb) in zip(iv, iv[1:]):
-                        if b0 < a1:
-                            bad = bad or (w, kb, f"records {ka} and {kb} share bits {b0}..{min(a1, b1)} of the store")
+                if wkey is None:
+                    raise NoEval("segment length leaf not found")
+                KEYS = [wkey] + list(env_for(None, 0, 0, 0, 0).keys())
+                f_blk, f_st, f_en = compile_expr(blk_e[1], KEYS), compile_expr(rng_e[1], KEYS), compile_expr(rng_e[2], KEYS)
+                for (f0, M) in shapes:
+                    count = min(M, 1100) if M != UMAX else 1100
+                    widths = range(1, 256) if (f0, M) in ((0, UMAX), (0, 1024)) else (1, 3, 5, 8, 20, 32, 64, 100, 255)
+                    for w in widths:
+                        iv = []
+                        for r in range(f0, f0 + count):
+                            blk, st, en = f_blk(w, r, f0, M), f_st(w, r, f0, M), f_en(w, r, f0, M)
+                            if en - st != w or en > 256 or st < 0 or blk < 0:
+                                bad = bad or (w, r, f0, M, f"bit range {st}..{en} in block {blk}")
+                            iv.append((blk * 256 + st, blk * 256 + en, r))
+                        iv.sort()
+                        for (a0, a1, ka), (b0, b1, kb) in zip(iv, iv[1:]):
+                            if b0 < a1:
+                                bad = bad or (w, kb, f0, M, f"records {ka} and {kb} share bits {b0}..{min(a1, b1)} of the store")
+                        if bad:
+                            break
                     if bad:
                         break
                 ok = bad is None
-                why = "every record of every width gets its own bits" if ok else f"width {bad[0]}, record {bad[1]}: {bad[2]} - the later record overwrites the earlier one, whose multiplication is then never proved"
+                why = "every record of every width and batch shape gets its own bits" if ok else f"width {bad[0]}, record {bad[1]} (batch starting at {bad[2]}, max_multiplications {'usize::MAX' if bad[3] == UMAX else bad[3]}): {bad[4]} - the later record overwrites the earlier one, whose multiplication is then never proved"
             except NoEval as u:
                 ok, why = False, f"cannot evaluate the slot arithmetic ({u})"
             ctx.ob(rule, "small:slots-disjoint", ok, why, site_of(b, blk_e[0]))
@@ -565,32 +586,29 @@ def segment_packing(ctx, facts, rule):
     if base is None or idx is None or nblk is None:
         ctx.missing(rule, "block arithmetic in insert_segment_large")
         return
-    wkey = kkey = None
-    for nd in walk_all(base[1]):
-        nd_ = flow.strip_casts(nd)
-        if nd_[0] == "call" and nd_[1].endswith("Segment::<'a>::len"):
-            wkey = nd_
-        if nd_[0] == "bin" and nd_[1] == "Sub" and "From::from" in str(nd_[2]) and "first_record" in str(nd_[3]):
-            kkey = nd_
+    wkey = leaves([base[1], idx[1]])
     try:
-        if wkey is None or kkey is None:
-            raise NoEval("segment length / record offset leaves not found")
+        if wkey is None:
+            raise NoEval("segment length leaf not found")
         bad = None
         ival = [nd for nd in walk_all(idx[1]) if nd[0] == "proj" and "Iterator::next" in str(nd)]
-        for w in (256, 512, 768, 1024):
-            for k in range(0, 300):
-                env = {wkey: w, kkey: k}
-                first = ieval(base[1], env)
-                n = ieval(nblk, env)
-                if first != k * (w // 256) or n != w // 256:
-                    bad = bad or (w, k, first, n)
-                if ival:
-                    env2 = dict(env)
-                    env2[flow.strip_casts(ival[0])] = 0
-                    if ieval(idx[1], env2) != first:
-                        bad = bad or (w, k, ieval(idx[1], env2), n)
+        for (f0, M) in shapes:
+            count = min(M, 300) if M != UMAX else 300
+            for w in (256, 512, 768, 1024):
+                for r in range(f0, f0 + count):
+                    k = r - f0
+                    env = env_for(wkey, w, r, f0, M)
+                    first = ieval(base[1], env)
+                    n = ieval(nblk, env)
+                    if first != k * (w // 256) or n != w // 256:
+                        bad = bad or (w, r, f0, M, first, n)
+                    if ival:
+                        env2 = dict(env)
+                        env2[flow.strip_casts(ival[0])] = 0
+                        if ieval(idx[1], env2) != first:
+                            bad = bad or (w, r, f0, M, ieval(idx[1], env2), n)
         ok = bad is None
-        why = "record k occupies blocks k*w/256 .. (k+1)*w/256" if ok else f"width {bad[0]}, record {bad[1]}: first block {bad[2]}, {bad[3]} block(s) - records overlap or leave the store misaligned"
+        why = "the record with offset k occupies blocks k*w/256 .. (k+1)*w/256" if ok else f"width {bad[0]}, record {bad[1]} (batch starting at {bad[2]}, max_multiplications {'usize::MAX' if bad[3] == UMAX else bad[3]}): first block {bad[4]}, {bad[5]} block(s) - records overlap or leave the store misaligned"
     except NoEval as u:
         ok, why = False, f"cannot evaluate the block arithmetic ({u})"
     ctx.ob(rule, "large:blocks-disjoint", ok, why, site_of(b, base[0]))
